@@ -241,6 +241,9 @@ func (ms *Modules) FindModule(n Node) *Module {
 // FindModuleByNamespace either returns the Module specified by the namespace
 // or returns an error.
 func (ms *Modules) FindModuleByNamespace(ns string) (*Module, error) {
+	if verifEnabled {
+		verifYield("ns.lookup")
+	}
 	// Protect the byNS map from concurrent accesses
 	ms.nsMu.Lock()
 	defer ms.nsMu.Unlock()
@@ -462,12 +465,18 @@ func (ms *Modules) include(m *Module) error {
 }
 
 func (ms *Modules) getEntryCache(n Node) *Entry {
+	if verifEnabled {
+		verifYield("entrycache.get")
+	}
 	ms.entryCacheMu.RLock()
 	defer ms.entryCacheMu.RUnlock()
 	return ms.entryCache[n]
 }
 
 func (ms *Modules) setEntryCache(n Node, e *Entry) {
+	if verifEnabled {
+		verifYield("entrycache.set")
+	}
 	ms.entryCacheMu.Lock()
 	defer ms.entryCacheMu.Unlock()
 	ms.entryCache[n] = e
